@@ -13,6 +13,7 @@ SHAPES = {
     "dup": [("id as a", "int"), ("id + 100 as a", "int")],
     "aliasdup": [("id as x", "int"), ("id + 100 as b", "int"), ("id + 200 as x", "int")],
     "quoted": [('id as "My Col"', "int"), ('id + 100 as "a"', "int")],
+    "dml": [("<affected count>", "count")],
     "types": [
         ("id", "int"),
         ("'r' || id::varchar as s", "str"),
@@ -55,8 +56,14 @@ def same(a, b) -> bool:
         return False
 
 
+_AFFECTED = [0]      # the count the last DML statement of the running behaviour must report
+
+
 def decode_row(shape: str, values: list) -> tuple[int, list[int]]:
     """(position, column index per delivered value); 0 where a value is not recognisable."""
+    if shape == "dml":
+        good = [same(_norm(v), _AFFECTED[0]) and not isinstance(v, bool) for v in values]
+        return (1 if any(good) else 0), [1 if g else 0 for g in good]
     spec = SHAPES[shape]
     pos = 0
     for v in values:  # the position is recoverable from any int cell
@@ -119,6 +126,7 @@ _FS = None
 
 class C05(Prop):
     id = "C05"
+    noise_sample = 400
     gen_module = "FsCursorGen"
     judge_module = "FsCursorJudge"
     assumptions = [
@@ -130,12 +138,13 @@ class C05(Prop):
                "SetArraysize", "FetchPandasAll", "ReadDescription"]
 
     def consts(self, tier):
-        return {"MaxN": 3, "MaxK": 4, "MaxA": 2, "ShapesUsed": {"three", "dup"}}
+        return {"MaxN": 3, "MaxK": 4, "MaxA": 2, "ShapesUsed": {"three", "dup"}, "ViaUsed": {"x"}}
 
     def model_checks(self, tier):
         big = tier == "thorough"
         c = {"MaxN": 4 if big else 3, "MaxK": 5 if big else 4, "MaxA": 3 if big else 2,
-             "ShapesUsed": {"one", "three", "dup", "aliasdup", "quoted", "types"}, "Devs": set(), "Depth": 12 if big else 10}
+             "ShapesUsed": {"one", "three", "dup", "aliasdup", "quoted", "types"}, "ViaUsed": {"x", "s1", "s2"}, "Devs": set(),
+             "Depth": 12 if big else 10}
         inv = ["StepInv", "ExactlyOnce", "Drained", "NoResult", "Replace"]
         out = [dict(name="mc_ideal", consts=c, invariants=inv, properties=["Monotone"], constraint="Bound",
                     view="ViewSt", coverage=True, actions=self.ACTIONS)]
@@ -147,23 +156,24 @@ class C05(Prop):
     def generations(self, tier, seed):
         big = tier == "thorough"
         all_shapes = {"one", "three", "dup", "aliasdup", "quoted", "types"}
-        base = {"Devs": set()}
+        base = {"Devs": set(), "ViaUsed": {"x"}}
         g = [
             # every transition of the state graph, one shortest path each
-            dict(name="edges", mode="edges",
-                 consts=dict(base, MaxN=3, MaxK=4, MaxA=2, ShapesUsed=all_shapes if big else {"three", "aliasdup", "types"}, Depth=7)),
+            dict(name="edges", mode="edges", sample=None if big else 5000,
+                 consts=dict(base, MaxN=3, MaxK=4, MaxA=2, ShapesUsed=all_shapes if big else {"three", "aliasdup", "types"}, Depth=7,
+                             ViaUsed={"x", "s1", "s2"} if big else {"x", "s1"})),
             # every operation sequence up to a small length (path-dependent bugs)
-            dict(name="paths", mode="paths",
+            dict(name="paths", mode="paths", sample=None if big else 4000,
                  consts=dict(base, MaxN=3 if big else 2, MaxK=3 if big else 2, MaxA=2, ShapesUsed={"three"}, Depth=6 if big else 5)),
-            dict(name="paths_dict", mode="paths",
+            dict(name="paths_dict", mode="paths", sample=None if big else 4000,
                  consts=dict(base, MaxN=2, MaxK=2, MaxA=2, ShapesUsed={"aliasdup"}, Depth=5)),
             # long random walks
             dict(name="walks", mode="walks", depth=14, num=3000 if big else 500,
-                 consts=dict(base, MaxN=4, MaxK=5, MaxA=3, ShapesUsed=all_shapes, Depth=14)),
+                 consts=dict(base, MaxN=4, MaxK=5, MaxA=3, ShapesUsed=all_shapes, Depth=14, ViaUsed={"x", "s1", "s2"})),
         ]
         if big:
             g.append(dict(name="walks_long", mode="walks", depth=40, num=1500, seed_offset=1,
-                          consts=dict(base, MaxN=6, MaxK=7, MaxA=4, ShapesUsed=all_shapes, Depth=40)))
+                          consts=dict(base, MaxN=6, MaxK=7, MaxA=4, ShapesUsed=all_shapes, Depth=40, ViaUsed={"x", "s1", "s2"})))
         return g
 
     def nontrivial(self, ops):
@@ -182,6 +192,7 @@ class C05(Prop):
             _FS = fakesnow.instance.FakeSnow()
             setup = _FS.connect("DB1", "S1").cursor()
             setup.execute("create table src (id int)")
+            setup.execute("create table scr (id int)")
             setup.execute("insert into src values " + ",".join(f"({i})" for i in range(1, 21)))
         conn = _FS.connect("DB1", "S1")
         cur = None
@@ -206,7 +217,22 @@ class C05(Prop):
                 elif k == "exec":
                     shape = op["sh"]
                     sel = ", ".join(e for e, _ in SHAPES[shape])
-                    cur.execute(f"select {sel} from src where id <= {int(op['n'])} order by id")
+                    sql = f"select {sel} from src where id <= {int(op['n'])} order by id"
+                    via = op.get("via", "x")
+                    if via == "x":
+                        cur.execute(sql)
+                    else:
+                        # the statement as one of two in a script: each statement has its own cursor and result
+                        other = "select 7 as z from src where id <= 2"
+                        script = f"{sql}; {other}" if via == "s1" else f"{other}; {sql}"
+                        kw = {"cursor_class": DictCursor} if isdict else {}
+                        curs = list(conn.execute_string(script, **kw))
+                        cur = curs[0] if via == "s1" else curs[-1]
+                    obs = plain("ok")
+                elif k == "dml":
+                    shape = "dml"
+                    _AFFECTED[0] = int(op["a"])
+                    cur.execute(f"insert into scr select id from src where id <= {int(op['a'])}")
                     obs = plain("ok")
                 elif k == "execfail":
                     which = rng.choice(["select * from no_such_table", "select no_such_col from src", "selec 1"])
